@@ -78,7 +78,7 @@ func runC04(c *Ctx) {
 		db := ana.NewBuilder(c.P, decodeFn)
 		// the loop over the data part may range over the string or count byte positions: both index every byte
 		idx := "alt(ext#1(next(range(p1))), ind<+1>(0))"
-		elem := "load(iaddr(faddr<decMap>(p0), index(p1, " + idx + ")))"
+		elem := "load(iaddr(faddr<#1>(p0), index(p1, " + idx + ")))"
 		loops := rangeLoops(db)
 		okLoop := false
 		for _, l := range loops {
